@@ -125,6 +125,8 @@ prop("C18", "Unbounded proof of the transfer-log look-up: a day file answers yes
      {"(*log.rollingFile).each": None, "(*log.rollingFile).search$1": None, L+"wasWritten": None, L+"WasReceived": None, L+"WasSent": None, L+"Received": None, L+"Sent": None, "(*log.rollingFile).log": None})
 # C02: cache and verdict codes; C17: store
 P["C02"]["functions"] += ["(*cache.cacheFile).IsDone", "(*cache.JSON).Get", "(*cache.JSON).add", "(*cache.JSON).Done", "(*cache.JSON).Remove", "(*http.confirmed).NotFound", "(*http.confirmed).Waiting", "(*http.confirmed).Failed", "(*http.confirmed).Received", H+"routeValidate"]
+for _p in ("C02", "C07", "C17"):
+    P[_p]["functions"] += ["(*store.Local).Sync"]
 P["C17"]["functions"] += ["(*store.Local).shouldIgnore", "(*store.Local).handleNode", "(*store.Local).Scan", "(*cache.JSON).add"]
 P["C06"]["functions"] += ["fileutil.writeJSON", "fileutil.Move", "(*log.rollingFile).log"]
 P["C06"]["labels"]["(*log.rollingFile).log"] = ["sync-when-required", "rotated-first"]
